@@ -495,6 +495,7 @@ class Exec(Engine):
             if name in self.reg.constants: return [(st, self.reg.constants[name](self, st))]
             return [(st, V(MOD, Dotted(name)))]
         if t == CLS:
+            if (b.z + '.' + attr) in self.reg.constants: return [(st, self.reg.constants[b.z + '.' + attr](self, st))]
             ci = self.reg.find_class(b.z)
             if ci is not None:
                 c = ci.find_const(attr)
